@@ -176,6 +176,7 @@ def main():
     import oracle as O
     nb = 1500 if run.thorough else 200
     lines_checked = 0
+    model_cases = []
     for i in range(nb):
         g = Gen(run.rng, dict(W_FULL, probe=4, polyline=3), malformed=0.1, bounds=False)
         dp = run.rng.choice([0, 1, 3, 5, 8, 12])
@@ -183,15 +184,22 @@ def main():
         # extreme magnitudes
         if i % 3 == 0:
             cmds.append(("move", "linear", {"x": Fraction(run.rng.randint(1, 9), 10 ** 6), "y": Fraction(10 ** 12 + 1, 8)}, [("F", Fraction(1, 3 * 2 ** 20))]))
+        if i % 4 == 1:
+            # scalar words under the other unit systems: a dwell in milliseconds, temperatures in kelvin, a feed in inches
+            cmds += [("set_time_units", "milliseconds"), ("sleep", Fraction(run.rng.randint(1, 400), 8)), ("set_temp_units", "kelvin"),
+                     ("set_bed", Fraction(run.rng.randint(2300, 2900), 8)), ("set_units", "inches"), ("set_feed", Fraction(run.rng.randint(1, 999), 16))]
         cfg = dict(comment_symbols=run.rng.choice([";", "(", "#", "//", "["]), line_endings=run.rng.choice(["\\n", "\\r\\n", "os"]))
         from gscrib import GCodeBuilder
         from builder_lib import Recorder
         rec = Recorder()
-        gb = GCodeBuilder(decimal_places=dp, x_axis=run.rng.choice(["X", "A", "U"]), **cfg)
+        xa = run.rng.choice(["X", "A", "U"])
+        gb = GCodeBuilder(decimal_places=dp, x_axis=xa, **cfg)
         gb.add_writer(rec.writer)
         ir = ImplRun.__new__(ImplRun)
         ir.rec, ir.g, ir.ctx, ir.hooks, ir.calls, ir.style = rec, gb, [], {}, [], 0
         steps = ir.run(cmds)
+        if xa == "X":
+            model_cases.append((dp, cmds, steps))
         eol = {"\\n": b"\n", "\\r\\n": b"\r\n", "os": os.linesep.encode()}[cfg["line_endings"]]
         for c, s in zip(cmds, steps):
             for raw in s["raw"]:
@@ -215,6 +223,26 @@ def main():
                     found = True
                     run.violation("%s: %r emitted by %r (decimal_places=%d, comment_symbols=%r)" % (prob, raw, cmd_json(c), dp, cfg["comment_symbols"]),
                                   dict(dp=dp, config=cfg, history=[cmd_json(x) for x in cmds], line=raw))
+    # ... and the VALUES of the words: the same histories on the builder model (coq/model/Builder.v), whose every word is the
+    # decimal_places-rounding of the requested value -- any other word is off by at least one unit of the last place
+    words_vs_model = 0
+    if model_cases:
+        from builder_lib import eval_model, fmt_lines
+        model, log = eval_model(PID, [(dp_, cmds_) for dp_, cmds_, _ in model_cases])
+        if model is None:
+            run.log("model evaluation failed:\n" + log)
+            run.violation("the model (coq/model/Builder.v) could not be evaluated on the generated histories", dict(log=log[-1500:], theorem="C08_number / C08_block"), no_input=not found)
+        else:
+            for (dp_, cmds_, steps_), msteps in zip(model_cases, model):
+                for si, (m, im) in enumerate(zip(msteps, steps_)):
+                    if m["exc"] != im["exc"] or any(l is None for l in im["lines"]):
+                        break            # exceptions and malformed lines are other checks' business (C02/C03/C05, the grammar above)
+                    if m["lines"] != im["lines"]:
+                        found = True
+                        run.violation("%r at decimal_places=%d emitted %r; the requested values round to %s" % (cmd_json(cmds_[si]), dp_, im["raw"], fmt_lines(m["lines"])),
+                                      dict(dp=dp_, history=[cmd_json(x) for x in cmds_[:si + 1]], observed=im["raw"], expected_words=fmt_lines(m["lines"])))
+                        break
+                    words_vs_model += sum(len(l) for l in im["lines"])
     # formatter.parameters()/command() with scalar types on axis and non-axis words -----------------------
     words_checked = 0
     block_cases = []
@@ -315,7 +343,7 @@ def main():
                        "judged by the value oracle; builder level: random histories x decimal_places x comment style x "
                        "line ending x relabelled X axis, every raw line through an independent block grammar. "
                        "non-trivial = finite non-zero value; distinct = distinct (value, type, dp).")
-    run.finish(proof=st, extra=dict(input_distribution=dict(value_types=kinds), builder_lines_checked=lines_checked, parameter_words_checked=words_checked, blocks_compared_with_model=blocks_ok,
+    run.finish(proof=st, extra=dict(input_distribution=dict(value_types=kinds), builder_lines_checked=lines_checked, parameter_words_checked=words_checked, builder_words_compared_with_model=words_vs_model, blocks_compared_with_model=blocks_ok,
                                     traces_validated_against_impl=len(model) if model_ok else 0))
 
 
